@@ -5,11 +5,12 @@ l = P.lower()
 ROUND2 = '--round2' in sys.argv     # /tmp/s2-cxx-out/{1,2,3} -> seeded/Cxx-{4,5,6}
 ROUND3 = '--round3' in sys.argv     # /tmp/s3-cxx-out/{1,2,3} -> seeded/Cxx-{7,8,9}
 ROUND4 = '--round4' in sys.argv     # /tmp/s4-cxx-out/{1,2,3} -> seeded/Cxx-{10,11,12}
+ROUND5 = '--round5' in sys.argv     # /tmp/s5-cxx-out/{1,2,3} -> seeded/Cxx-{13,14,15}
 for i in (1, 2, 3):
-  src = ('/tmp/s4-%s-out/%d' if ROUND4 else '/tmp/s3-%s-out/%d' if ROUND3 else '/tmp/s2-%s-out/%d' if ROUND2 else '/tmp/seed-%s-out/%d') % (l, i)
+  src = ('/tmp/s5-%s-out/%d' if ROUND5 else '/tmp/s4-%s-out/%d' if ROUND4 else '/tmp/s3-%s-out/%d' if ROUND3 else '/tmp/s2-%s-out/%d' if ROUND2 else '/tmp/seed-%s-out/%d') % (l, i)
   if not os.path.exists(os.path.join(src, 'patch.diff')):
     continue
-  dst = 'seeded/%s-%d' % (P, i + (9 if ROUND4 else 6 if ROUND3 else 3 if ROUND2 else 0))
+  dst = 'seeded/%s-%d' % (P, i + (12 if ROUND5 else 9 if ROUND4 else 6 if ROUND3 else 3 if ROUND2 else 0))
   os.makedirs(dst, exist_ok=True)
   for f in ('patch.diff', 'demo.py'):
     shutil.copy(os.path.join(src, f), os.path.join(dst, f))
